@@ -108,6 +108,16 @@ def _install(plan, modules):
                 except OSError:
                     pass
             os._exit(137)
+        if plan.mode == "kill-after":
+            # the call takes effect, then the process dies at once: whatever still sits in user-space buffers is lost
+            try:
+                if event == "os.rename":
+                    os.rename(args[0], args[1])
+                elif event == "os.remove":
+                    os.remove(args[0])
+            except OSError:
+                pass
+            os._exit(137)
         if plan.mode in ("kill", "partial"):
             os._exit(137)
         raise OSError(getattr(_errno, plan.err), os.strerror(getattr(_errno, plan.err)))
@@ -140,8 +150,17 @@ def run_child(op, plan_kwargs, modules, timeout=60):
     if pid == 0:
         try:
             os.close(r)
+            fsize = plan_kwargs.pop("fsize", None)
             plan = _Plan(**plan_kwargs)
             _install(plan, modules)
+            if fsize is not None:
+                # a real resource fault, no hook involved: every write beyond `fsize` bytes of any file is cut short
+                # and then fails with EFBIG (what a full disk / quota does), whichever API issues it
+                import resource
+                import signal as _sig
+
+                _sig.signal(_sig.SIGXFSZ, _sig.SIG_IGN)
+                resource.setrlimit(resource.RLIMIT_FSIZE, (fsize, fsize))
             status = "done"
             try:
                 op()
